@@ -210,6 +210,8 @@ def coq_trace(trace):
             e = f'EDiscOk {n(w[1])}'
         elif w[0] == 'DF':
             e = f'EDiscFail {n(w[1])}'
+        elif w[0] == 'K':
+            e = f'ECancel {n(w[1])}'
         else:
             e = {'T': 'ETick', 'G': 'EGc', 'X': 'ERun'}[w[0]]
         terms.append(f'({e}, mkOracle {o["recent"]} {o["avgnz"]} {o["cq"]} {o["capcrash"]} {o["gcn"]})')
